@@ -610,14 +610,14 @@ pub fn run(ctx: &Ctx) {
         emit(&mut out, i % 2 == 0, &plan);
     }
     if release {
-        for i in 0..(if thorough { 1500 } else { 300 }) {
+        for i in 0..(if thorough { 1500 } else { 200 }) {
             let plan = gen_plan(&mut rng, false);
             emit(&mut out, i % 3 == 0, &plan);
         }
         out.finish("release profile: runs whose bucket products value x count reach 2^32, plus random runs; distinct by hash of the label list");
         return;
     }
-    for i in 0..(if thorough { 8000 } else { 2500 }) {
+    for i in 0..(if thorough { 8000 } else { 2000 }) {
         let plan = gen_plan(&mut rng, thorough);
         emit(&mut out, i % 3 == 0, &plan);
     }
